@@ -153,7 +153,8 @@ package decimal
 
 //@ func div10W(n1, n0 Word) (q, r Word)
 //@   same div10W_g
-//@   status assumed assembly
+//@   asm dec_arith_amd64.s
+//@   tags safety C04,C07
 
 //@ func div10WW_g(u1, u0, v Word) (q, r Word)
 //@   requires[nooverflow] u1 < v && v <= B && u0 < B
@@ -331,10 +332,12 @@ package decimal
 // its portable twin; whether the assembly meets it is the subject of C07.
 //@ func mul10WW(x, y Word) (z1, z0 Word)
 //@   same mul10WW_g
-//@   status assumed assembly
+//@   asm dec_arith_amd64.s
+//@   tags safety C04,C07
 //@ func div10WW(u1, u0, v Word) (q, r Word)
 //@   same div10WW_g
-//@   status assumed assembly
+//@   asm dec_arith_amd64.s
+//@   tags safety C04,C07
 //@ func add10VV(z, x, y []Word) (c Word)
 //@   same add10VV_g
 //@   status assumed assembly
